@@ -187,12 +187,14 @@ def step_sv(ctx) -> None:
             um0 = ("vcall", None, (targ,))
             tf5 = _time_form(um0[2][0], k)
             if tf5 is not None and set(tf5) <= {0, 1} and all(c.imag == 0 and c.real >= -1e-15 for c in tf5.values()) \
-                    and abs(sum(tf5.values()) - 1) < 1e-12:
+                    and abs(sum(tf5.values()) - 1) < 1e-12 and tf5.get(0, 0).real > 1e-12:
+                # strictly before T[k+1]: the matrix switches at t >= slm_end_time, so T[k+1] already belongs to the next step
                 ok5 = True
             detail5 = f"interaction matrix queried at {show(um0[2][0])[:100]}"
         ctx.ob("STEP-sv", "O5 interaction time", a.loc(), ok5,
-               "the interaction matrix of step k is queried at a convex combination of T[k], T[k+1]" if ok5 else
-               detail5 + " — not a time inside the step being evolved", entry=f.qualname)
+               "the interaction matrix of step k is queried at a time in [T[k], T[k+1])" if ok5 else
+               detail5 + " — not a time inside the half-open step [T[k], T[k+1]) being evolved (at T[k+1] the SLM mask "
+                         "of the next step already applies)", entry=f.qualname)
         # ROLE: state / tolerance / lindblads
         okst = strip_typed(st) == ("attr", ("attr", SELF, "state"), "data")
         ctx.ob("ROLE-sv", "state argument", a.loc(), okst,
@@ -820,7 +822,7 @@ def sv_initial_hamiltonian(ctx) -> None:
                 li = linear_in(targ, [("sub", T, k), ("sub", T, ("bin", "Add", k, ("const", 1)))])
                 if li is not None:
                     a, b, c0 = (complex(x) for x in li)
-                    okt = abs(a + b - 1) < 1e-12 and abs(a.imag) + abs(b.imag) < 1e-12 and a.real >= -1e-12 and b.real >= -1e-12 and abs(c0) < 1e-12
+                    okt = abs(a + b - 1) < 1e-12 and abs(a.imag) + abs(b.imag) < 1e-12 and a.real > 1e-12 and b.real >= -1e-12 and abs(c0) < 1e-12
             ctx.ob("STEP-sv", "initial Hamiltonian interaction time", e.loc(), okt,
                    "the interaction matrix is taken at a time inside the step about to start" if okt else
                    f"the interaction matrix of the initial Hamiltonian is queried at {show(im)[:90]}, not at a convex "
